@@ -5,7 +5,7 @@ import re
 import typing
 
 from .. import rt  # noqa: F401
-from ..chx.api import P, harness, ladder, pick, shard
+from ..chx.api import P, concrete, harness, ladder, pick, shard
 
 import httpcore
 from httpcore._models import enforce_bytes, enforce_headers, include_request_headers
@@ -72,6 +72,11 @@ def parse(s: int, u: int, h: int, p: int, pa: int, q: int, f: int) -> None:
     scheme = pick(s, SCHEMES)
     text = (scheme + "://" + pick(u, USERINFO) + pick(h, HOSTS)
             + pick(p, PORTS).format(default=DEFAULT[scheme.lower()]) + pick(pa, PATHS) + pick(q, QUERIES) + pick(f, FRAGS))
+    with concrete(text):
+        _parse(text, scheme)
+
+
+def _parse(text: str, scheme: str) -> None:
     P.note(url=text)
     arg: typing.Any = text.encode("ascii") if shard("bytes", False) else text
     try:
